@@ -49,6 +49,13 @@ double __CPROVER_uninterpreted_d_neg(double); _Bool __CPROVER_uninterpreted_d_lt
 _Bool __CPROVER_uninterpreted_d_eq(double, double);
 double __CPROVER_uninterpreted_sqrt(double); double __CPROVER_uninterpreted_cos(double); double __CPROVER_uninterpreted_sin(double);
 size_t __CPROVER_uninterpreted_str_size(bl_str);
+_Bool __CPROVER_uninterpreted_c_eq(cplx, cplx); _Bool __CPROVER_uninterpreted_c_eqd(cplx, double); cplx __CPROVER_uninterpreted_c_sub(cplx, cplx);
+double __CPROVER_uninterpreted_c_abs(cplx); double __CPROVER_uninterpreted_d_abs(double);
+#define c_eq __CPROVER_uninterpreted_c_eq
+#define c_eqd __CPROVER_uninterpreted_c_eqd
+#define c_sub __CPROVER_uninterpreted_c_sub
+#define c_abs __CPROVER_uninterpreted_c_abs
+#define D_ABS __CPROVER_uninterpreted_d_abs
 #define c_mul __CPROVER_uninterpreted_c_mul
 #define c_add __CPROVER_uninterpreted_c_add
 #define c_scale __CPROVER_uninterpreted_c_scale
@@ -73,6 +80,12 @@ static inline cplx c_add(cplx a, cplx b) { cplx r = { a.re + b.re, a.im + b.im }
 static inline cplx c_scale(cplx a, double d) { cplx r = { a.re * d, a.im * d }; return r; }
 static inline cplx c_divd(cplx a, double d) { cplx r = { a.re / d, a.im / d }; return r; }
 static inline double c_norm(cplx a) { return a.re * a.re + a.im * a.im; }
+static inline _Bool c_eq(cplx a, cplx b) { return a.re == b.re && a.im == b.im; }
+static inline _Bool c_eqd(cplx a, double d) { return a.re == d && a.im == 0.0; }
+static inline cplx c_sub(cplx a, cplx b) { cplx r = { a.re - b.re, a.im - b.im }; return r; }
+double hypot(double, double); double fabs(double);
+static inline double c_abs(cplx a) { return hypot(a.re, a.im); }
+#define D_ABS fabs
 #define D_ADD(a, b) ((a) + (b))
 #define D_SUB(a, b) ((a) - (b))
 #define D_MUL(a, b) ((a) * (b))
